@@ -54,7 +54,8 @@ EXPECTED_PROBES = {
             'k=1', 'same_merger_run_twice', 'tsv_value_zero'],
     'C12': ['k>=3', 'unequal_channels', 'matrix_in_all', 'matrix_in_some', 'unsigned_index_table',
             'highest_template_unused', 'single_column_probe', 'probe_not_starting_at_x0',
-            'same_merger_run_twice'],
+            'same_merger_run_twice', 'more_than_256_templates',
+            'probe_order_differs_from_sorted_paths'],
     'C13': ['label', 'raw', 'curated', 'convert_into_source', 'convert_into_source:symlink',
             'convert_into_source:dotdot', 'temp_wh', 'preexisting_store',
             'no_features', 'multi_probe_table', 'highest_template_unused',
@@ -62,7 +63,7 @@ EXPECTED_PROBES = {
             'params_name_a_missing_raw_file'],
     'C14': ['pipeline', 'pipeline_k>=3', 'features', 'no_features', 'empty_cluster_id',
             'few_channels_on_probe', 'factor', 'second_export_from_same_session',
-            're_export_into_same_directory'],
+            're_export_into_same_directory', 'batch_boundary_size'],
 }
 
 TSV_NAMES = ['cluster_Amplitude.tsv', 'cluster_ContamPct.tsv', 'cluster_KSLabel.tsv']
@@ -128,6 +129,15 @@ def gen(rng, prop, tier):
         k = rng.choice([1, 2, 2, 3, 3, 4]) if prop != 'C12' else rng.choice([1, 2, 3, 3, 4, 4])
         shared = _shared(rng)
         cfg['probes'] = [_probe_cfg(rng, shared, big) for _ in range(k)]
+        naming = rng.choice(['indexed', 'sides', 'unpadded'])
+        for c in cfg['probes']:
+            c['dir_naming'] = naming
+        if rng.random() < (0.03 if big else 0.012):
+            # many templates: real sortings have hundreds (exercises any chunked writing)
+            for c in cfg['probes']:
+                c['nt'] = rng.choice([70, 257, 300, 513])
+                c['ns'] = max(c['ns'], 40)
+                c['unused_templates'] = []
         if rng.random() < 0.3 and k >= 2:
             # equal sizes: the coincidence upstream tests live in
             for c in cfg['probes'][1:]:
@@ -156,6 +166,14 @@ def gen(rng, prop, tier):
     if rng.random() < 0.5:
         d['curation'] = world.gen_curation_ops(rng, rng.randint(1, 3))
     d['pos_scale'] = rng.choice([1, 1, 40])
+    if prop == 'C14' and rng.random() < (0.012 if big else 0.005):
+        # get_depths works in batches of 50 000 spikes
+        d['ns'] = rng.choice([50000, 50001, 100001, 100002])
+        p.update({'features': True, 'feature_rows': False, 'tfeatures': False, 'raw': False,
+                  'attrs': False, 'reordered': False})
+        d['raw'] = None
+        d['nloc_f'] = 2
+        d['npcs'] = 2
     d['extras'] = {'ks_label': rng.random() < 0.5, 'temp_wh': rng.random() < 0.4,
                    'channel_labels': rng.random() < 0.3, 'drift': rng.random() < 0.2,
                    'pre_store': False}
@@ -206,7 +224,8 @@ def simplify(plan):
         for i, c in enumerate(cfg['probes']):
             for key, simple in (('curation', []), ('colvec', []), ('unused_templates', []),
                                 ('geometry', 'line'), ('permute_map', False),
-                                ('raw_channels_extra', 0), ('x_shift', 0), ('pos_scale', 1)):
+                                ('raw_channels_extra', 0), ('x_shift', 0), ('pos_scale', 1),
+                                ('dir_naming', 'indexed')):
                 if c.get(key) != simple:
                     p = copy.deepcopy(plan)
                     p['cfg']['probes'][i][key] = simple
@@ -322,7 +341,14 @@ class Probe(object):
         g.chmap = (rs.permutation(n_dat)[:cfg['nc']] if cfg['permute_map']
                    else np.arange(cfg['nc'])).astype(np.int64)
         self.g = g
-        self.dir = root / ('probe%d' % index)
+        naming = cfg.get('dir_naming', 'indexed')
+        if naming == 'sides':      # given order right, left, mid, far != sorted order
+            name = ['imec_right', 'imec_left', 'imec_mid', 'imec_far'][index % 4]
+        elif naming == 'unpadded':   # probe9, probe10, probe11, probe12: 'probe10' < 'probe9'
+            name = 'probe%d' % (index + 9)
+        else:
+            name = 'probe%d' % index
+        self.dir = root / name
         world.write_dataset(cfg, g, self.dir)
         self.tsv = {}
         ids = np.unique(g.sclusters)
@@ -477,6 +503,10 @@ def check_merge_structure(ctx, probes, out, model, offs):
     t0 = np.cumsum([0] + nts)
     if len(set(ncs)) > 1:
         ctx.probe('unequal_channels')
+    if max(nts) > 256:
+        ctx.probe('more_than_256_templates')
+    if k >= 2 and probes[0].cfg.get('dir_naming', 'indexed') != 'indexed':
+        ctx.probe('probe_order_differs_from_sorted_paths')
     if k >= 3:
         ctx.probe('k>=3')
     # channels
@@ -825,12 +855,14 @@ def check_export_values(ctx, model, out, op, orig_maps):
         ctx.probe('features')
         F = np.asarray(model.sparse_features.data)  # (n, nloc, npcs)
         cols = np.asarray(model.sparse_features.cols).astype(np.int64)
+        fpos = np.maximum(F[:, :, 0], 0).astype(np.float64) ** 2     # (ns, nloc)
+        ych = pos[:, 1][cols[st]]                                      # (ns, nloc)
+        den = fpos.sum(axis=1)
         exp = np.full(ns, np.nan)
-        for s in range(ns):
-            fpos = np.maximum(F[s, :, 0], 0).astype(np.float64) ** 2
-            den = fpos.sum()
-            if den > 0:
-                exp[s] = (pos[cols[st[s]], 1] * fpos).sum() / den
+        okd = den > 0
+        exp[okd] = (ych[okd] * fpos[okd]).sum(axis=1) / den[okd]
+        if ns >= 50000:
+            ctx.probe('batch_boundary_size')
         ctx.check(ref.close(SD, exp, 1e-4, atol_scale=max(float(np.abs(pos[:, 1]).max()), 1.0)),
                   'spike-depths-feature-weighted', lambda: {'got': _desc(SD),
                                                             'expected': _desc(exp)})
